@@ -19,6 +19,7 @@ import SpsdkVerif.Proofs.HabLayout
 import SpsdkVerif.Proofs.HabSign
 import SpsdkVerif.Proofs.HabRoundtrip
 import SpsdkVerif.Proofs.HabVisible
+import SpsdkVerif.Proofs.HabRomAccept
 import SpsdkVerif.Proofs.Crypto
 
 namespace SpsdkVerif.C07
@@ -223,18 +224,38 @@ theorem enc_restores (cr : CryptoOps) (s : Signer) (fuel : Nat) (c : Cfg) (b : B
 
 /-! ## 8. round trip -/
 
-/-- `parse (export cfg) = ok (segments cfg)` for every well-formed configuration whose application `parse` can find.
-    Full strength (without `hvis`) is FALSE on the current code — `HabContainer.parse` guesses the application offset
-    from a reset-vector heuristic (known finding C07-parse-app-offset-guess, refuted by `roundtrip_needs_visible_app`):
+/-- layout-level round trip: `parse (export) = ok (segments)` for every well-formed configuration, given for a container
+    with a CSF that the CSF lists the application block (`build` guarantees it: `hab_roundtrip_signed`), and for an
+    unsigned container that the reset-vector heuristic finds the application (`hvis`; `hab_roundtrip_unsigned`).
+
+    Full strength for UNSIGNED images (without `hvis`) is FALSE on the current code — `HabContainer.parse` has nothing but
+    a reset-vector heuristic to locate the application of an image without CSF (known finding
+    C07-parse-app-offset-guess, refuted by `roundtrip_needs_visible_app`):
 
     theorem hab_roundtrip : c.WF → … → parse (exportImage c b) = .ok (expectedParse c b) -/
 theorem hab_roundtrip_partial (c : Cfg) (b : Built) (h : c.WF)
     (hd : ∀ d, c.dcd = some d → DcdWF d) (hx : ∀ x, c.xmcd = some x → XmcdWF x)
     (happ : b.app.length = c.appBin.length)
-    (hc : c.hasCsf = true → CsfWF c.version b.cmds ∧ (getAut 2 b.cmds).isSome = isEnc c.flags)
-    (hvis : findAppOffset (exportImage c b) c.entry HabConsts.knownAppOffsets = some c.appOff) :
+    (hc : c.hasCsf = true → CsfWF c.version b.cmds ∧ (getAut 2 b.cmds).isSome = isEnc c.flags ∧
+      csfAppBlock b.cmds = some (c.start + c.ivtOff + c.appOff, c.appBin.length))
+    (hvis : c.hasCsf = false → findAppOffset (exportImage c b) c.entry HabConsts.knownAppOffsets = some c.appOff) :
     parse (exportImage c b) = .ok (expectedParse c b) :=
   hab_roundtrip_lemma c b h hd hx happ hc hvis
+
+/-- **signed and encrypted containers round-trip unconditionally** (full strength): whatever `build` produces from a
+    well-formed authenticated / encrypted configuration parses back into exactly its segments — IVT, boot data, DCD /
+    XMCD, the CSF with all commands and data blocks, and the application (ciphertext when encrypted) taken from the block
+    the CSF lists.  No hypothesis about the application contents. -/
+theorem hab_roundtrip_signed (cr : CryptoOps) (hl : CryptoLaws cr) (s : Signer) (fuel : Nat) (c : Cfg) (b : Built)
+    (h : c.WF) (ha : c.flags ≠ 0) (hb : build cr s fuel c = some b)
+    (hd : ∀ d, c.dcd = some d → DcdWF d) (hx : ∀ x, c.xmcd = some x → XmcdWF x)
+    (hm : macLenOk c.macLen = true) (hw : CsfWF c.version b.cmds)
+    (h2 : (getAut 2 b.cmds).isSome = isEnc c.flags) :
+    parse (exportImage c b) = .ok (expectedParse c b) := by
+  have hcsf : c.hasCsf = true := by rw [h.csf]; simpa using ha
+  exact hab_roundtrip_partial c b h hd hx (build_app_length cr hl s fuel c b h hb ha hm)
+    (fun _ => ⟨hw, h2, build_app_block cr s fuel c b h hb ha hl hm h2⟩)
+    (fun hh => by rw [hcsf] at hh; cases hh)
 
 /-- the hypothesis of `hab_roundtrip_partial` follows from the DECIDABLE predicate `AppVisible` on the configuration (and the
     final application bytes): the second application word passes the reset-vector test, no earlier probed offset does -/
@@ -254,16 +275,15 @@ theorem app_visible_of_vector (c : Cfg) (app : Misc.Bytes) (h : c.WF) (hq : c.Fr
   have hne : leDec (slice app 4 4) ≠ 0 := by omega
   simp [vectorOk, hne, hlo, hhi, hodd]
 
-/-- **the round trip with a decidable hypothesis on the configuration**: every well-formed container whose application
-    is visible in the sense of `AppVisible` parses back into its segments -/
-theorem hab_roundtrip_visible (c : Cfg) (b : Built) (h : c.WF)
+/-- **unsigned containers round-trip under a decidable hypothesis on the configuration**: every well-formed plain
+    container whose application is visible in the sense of `AppVisible` parses back into its segments -/
+theorem hab_roundtrip_unsigned (c : Cfg) (b : Built) (h : c.WF) (h0 : c.flags = 0)
     (hd : ∀ d, c.dcd = some d → DcdWF d) (hx : ∀ x, c.xmcd = some x → XmcdWF x)
-    (happ : b.app.length = c.appBin.length)
-    (hc : c.hasCsf = true → CsfWF c.version b.cmds ∧ (getAut 2 b.cmds).isSome = isEnc c.flags)
-    (hv : AppVisible c b.app) :
-    parse (exportImage c b) = .ok (expectedParse c b) :=
-  hab_roundtrip_partial c b h hd hx happ hc
-    (app_visible c b h happ (fun hh => csfBytes_length _ _ (hc hh).1) hv)
+    (happ : b.app.length = c.appBin.length) (hv : AppVisible c b.app) :
+    parse (exportImage c b) = .ok (expectedParse c b) := by
+  have hcsf : c.hasCsf = false := by rw [h.csf, h0]; rfl
+  exact hab_roundtrip_partial c b h hd hx happ (fun hh => by rw [hcsf] at hh; cases hh)
+    (fun _ => app_visible c b h happ (fun hh => by rw [hcsf] at hh; cases hh) hv)
 
 end SpsdkVerif.C07
 
@@ -300,9 +320,9 @@ example (cr : Crypto.CryptoOps) :
 example : parse (exportImage (exPlain 0x20200109) (exBuilt (exPlain 0x20200109)))
     = .ok (expectedParse (exPlain 0x20200109) (exBuilt (exPlain 0x20200109))) :=
   hab_roundtrip_partial _ _ (exPlain_wf _) (fun d h => by cases h) (fun x h => by cases h) rfl
-    (fun h => by cases h) (by decide +kernel)
+    (fun h => by cases h) (fun _ => by decide +kernel)
 
-/-- **Refutation of the unconditional round trip** (known finding C07-parse-app-offset-guess): a well-formed plain
+/-- **Refutation of the unconditional round trip for unsigned images** (known finding C07-parse-app-offset-guess): a well-formed plain
     container whose second application word is even — `parse` does not find the application and raises -/
 theorem roundtrip_needs_visible_app :
     ∃ c : Cfg, c.WF ∧ parse (exportImage c (exBuilt c)) ≠ .ok (expectedParse c (exBuilt c)) :=
